@@ -300,8 +300,8 @@ def run_case(case, ctx):
     if d:
         ctx.violation('one_sided_count_mismatch', case, d, feats)
     # (1b) a second identical call gives the same answer and the caller's arrays are left alone
-    r1b = call(correlograms, times, spike_clusters, cluster_ids=list(id_list), sample_rate=rate,
-               bin_size=bin_size, window_size=window, symmetrize=False)
+    # (the second call uses the documented positional order)
+    r1b = call(correlograms, times, spike_clusters, list(id_list), rate, bin_size, window, False)
     if r1b.ok and same(r1b.value, exp, dtype=False):
         ctx.violation('one_sided_count_mismatch', case, 'second identical call: ' + same(r1b.value, exp, dtype=False), dict(feats, repeat=True))
     if not (np.array_equal(spike_clusters, sc_before) and np.array_equal(times, t_before)):
@@ -342,8 +342,8 @@ def run_case(case, ctx):
             ctx.violation('firing_rate_mismatch', case, 'default ids: ' + d, feats)
     # (4) firing rate
     duration = float(max(1, samples[-1] - samples[0] + 1)) / rate
-    r4 = call(firing_rate, spike_clusters, cluster_ids=list(id_list), bin_size=bin_size,
-              duration=duration)
+    r4 = call(firing_rate, spike_clusters, list(id_list), bin_size, duration) if len(samples) % 2 else \
+        call(firing_rate, spike_clusters, cluster_ids=list(id_list), bin_size=bin_size, duration=duration)
     if not r4.ok:
         ctx.violation('raised', case, 'firing_rate raised %r' % r4.exc, feats, tb=r4.tb)
     else:
